@@ -1374,6 +1374,11 @@ class OpElementwise(Op):
             args["step"] = round(g.rng.uniform(-1, 1), 3)
         if k in ("rsqrt", "reciprocal"):
             args["cutoff"] = g.rng.choice([0.0, 0.05, 0.3])
+            mag = np.abs(sa.arr[sa.arr != 0])
+            if mag.size and (mag.min() < 1e-6 * mag.max() or mag.min() < 1e-8 or np.any(np.abs(mag - args["cutoff"]) < 1e-6 * max(1.0, float(mag.max())))):
+                # 1/x on entries at round-off level (e.g. a difference that should vanish), or entries sitting on the cutoff, is ill-conditioned:
+                # the library's and the model's round-off would be compared, not the operation
+                return None
             if sa.is_complex() or (k == "rsqrt"):
                 # rsqrt needs non-negative entries: feed |a|
                 args["pre_abs"] = True
@@ -1428,7 +1433,14 @@ class OpElementwise(Op):
             big = np.abs(x) > c
             safe = np.where(big, x, 1)
             arr = np.where(big, 1 / np.sqrt(safe) if k == "rsqrt" else 1 / safe, 0)
-            # entries within 1e-9 of the cutoff are ambiguous to round-off: not generated (random data)
+            mag = np.abs(x[x != 0])
+            if ins is not None and ins[0].size:       # the real operand may carry round-off-level entries where the model has exact zeros
+                real = np.abs(np.asarray(ins[0].to_numpy() if ins[0].ndim else ins[0].to_number())).reshape(-1)
+                mag = np.concatenate([mag.reshape(-1), real[real != 0]])
+            if mag.size and (mag.min() < 1e-6 * mag.max() or mag.min() < 1e-8 or np.any(np.abs(mag - c) < 1e-6 * max(1.0, float(mag.max())))):
+                # ill-conditioned input (round-off-level entries, or entries on the cutoff): the model value is not an oracle here
+                core.current_world().probes["ill_conditioned_reciprocal_not_compared"] += 1
+                return [None]
         return [Shadow(arr, a.axes, a.tree, a.n, a.sym, a.isdiag)]
 
 
